@@ -138,11 +138,49 @@ def call(ev, f, node, st):
             return fn(ev, args, kw, st, node)
         if q.startswith("spec."):
             return SPEC[q[5:]](ev, node, st)
+        if q.startswith("specfun."):
+            return call_specfun(ev, q[8:], node, st)
         if q.startswith("<param:"):
             return call_param(ev, f, node, st)
         if q.startswith(PKG + "."):
             return call_pkg(ev, q, node, st)
     raise Unsupported("call of %r at line %s" % (f, getattr(node, "lineno", "?")))
+
+
+_specfun_cache = {}
+
+
+def call_specfun(ev, name, node, st):
+    """named specification function declared in the contract: spec_funs = {name: ([args], 'Real'|'Int'|'Bool', body)}.
+    It is an uninterpreted symbol of its integer/real arguments with the definitional axiom
+    forall args. F(args) == body(args) (recorded in values.DEFS, pattern F(args)); names other than the arguments
+    refer to the function's *parameters at entry* (so the body must not mention mutable locals)."""
+    from . import values
+    ctx = ev.ctx
+    argn, rsh, body = ctx.contract["spec_funs"][name]
+    rs = parse_shape(rsh)
+    key = (id(ctx), name)
+    if key not in _specfun_cache:
+        vs = [z3.Int(fresh_name(a)) for a in argn]
+        env = dict(ctx.old_env)
+        for a, v in zip(argn, vs):
+            env[a] = Num(v)
+        s2 = State(env, [])
+        values.SCOPE.extend(vs)
+        try:
+            sev = core.Eval(ctx, ctx.module, spec=True)
+            bv = sev.spec_val(body, s2)
+        finally:
+            del values.SCOPE[len(values.SCOPE) - len(vs):]
+        f = z3.Function(fresh_name("spec_" + name), *([z3.IntSort()] * len(vs) + [leaf_sort(rs)]))
+        app = f(*vs)
+        from .values import leaf_term
+        values.DEFS.append((f.name(), z3.ForAll(vs, app == leaf_term(rs, bv), patterns=[app])))
+        _specfun_cache[key] = f
+    f = _specfun_cache[key]
+    args = [as_num(ev.ev(a, st)).t for a in node.args]
+    from .values import leaf_val
+    return leaf_val(rs, f(*args))
 
 
 def call_fn_values(ev, f, argvals, st, node):
